@@ -276,7 +276,8 @@ class HammingCodeEncoder(SystematicLinearBlockCodeEncoder):
 
         # Extract information bits
         decoded = y_reshaped[..., self.information_set]
-        decoded = decoded.reshape(*original_dims, self.code_dimension)
+        # the last dimension may carry several blocks: keep them concatenated, as in encoding
+        decoded = decoded.reshape(*original_dims, -1)
 
         return decoded, syndrome
 
